@@ -124,8 +124,8 @@ impl LanguageServer for Server {
                 return Ok(None);
             };
 
-            let vfs = snap.vfs.read().unwrap();
-            let lsp_location = to_proto::location(&vfs, &line_index, location);
+            let vfs = &snap.vfs;
+            let lsp_location = to_proto::location(vfs, &line_index, location);
             Ok(Some(GotoDefinitionResponse::Scalar(lsp_location)))
         });
         Box::pin(async move { task.await.unwrap() })
@@ -141,10 +141,10 @@ impl LanguageServer for Server {
             let Some(location_list) = snap.analysis.references(pos) else {
                 return Ok(None);
             };
-            let vfs = snap.vfs.read().unwrap();
+            let vfs = &snap.vfs;
             let lsp_location_list = location_list
                 .into_iter()
-                .map(|it| to_proto::location(&vfs, &line_index, it))
+                .map(|it| to_proto::location(vfs, &line_index, it))
                 .collect();
             Ok(Some(lsp_location_list))
         });
@@ -224,10 +224,10 @@ impl LanguageServer for Server {
                 return Ok(None);
             };
 
-            let vfs = snap.vfs.read().unwrap();
+            let vfs = &snap.vfs;
             let lsp_links = links
                 .into_iter()
-                .map(|it| to_proto::document_link(&vfs, &line_index, it))
+                .map(|it| to_proto::document_link(vfs, &line_index, it))
                 .collect();
             Ok(Some(lsp_links))
         });
@@ -290,7 +290,7 @@ impl Server {
                     .map(|diag| to_proto::diagnostic(&line_index, diag))
                     .collect();
 
-                let vfs = snap.vfs.read().unwrap();
+                let vfs = &snap.vfs;
                 let file_path = vfs.path_for_file(&file_id);
                 let file_uri = UrlExt::from_file_path(file_path);
 
@@ -315,7 +315,9 @@ impl Server {
     ) -> task::JoinHandle<T> {
         let snap = ServerSnapshot {
             analysis: self.host.analysis(),
-            vfs: Arc::clone(&self.vfs),
+            // tasks must not touch the shared lock: the main loop holds it for writing
+            // while it waits for every outstanding snapshot to be dropped
+            vfs: Arc::new(self.vfs.read().unwrap().clone()),
         };
         task::spawn_blocking(move || f(snap, params))
     }
@@ -323,5 +325,5 @@ impl Server {
 
 pub struct ServerSnapshot {
     pub analysis: Analysis,
-    pub vfs: Arc<RwLock<Vfs>>,
+    pub vfs: Arc<Vfs>,
 }
